@@ -74,6 +74,18 @@ def ep_from_path(data):
         os.unlink(path)
 
 
+def ep_from_path_all(data):
+    from dissect.cobaltstrike import beacon
+
+    fd, path = tempfile.mkstemp(prefix="c08_", dir="/dev/shm" if os.path.isdir("/dev/shm") else None)
+    try:
+        with os.fdopen(fd, "wb") as f:
+            f.write(data)
+        return beacon.BeaconConfig.from_path(path, all_xor_keys=True)
+    finally:
+        os.unlink(path)
+
+
 def ep_block(data):
     from dissect.cobaltstrike import beacon
 
@@ -123,7 +135,7 @@ def ep_http(data):
 
 PE_EPS = [_pe(n) for n in ("find_mz_offset", "find_architecture", "find_compile_stamps", "find_magic_mz", "find_magic_pe", "find_stage_prepend_append")]
 BEACON_EPS = [ep_from_bytes, ep_xor_from_file] + PE_EPS
-ALL_EPS = {f.__name__: f for f in [ep_from_bytes, ep_from_bytes_all, ep_from_file, ep_from_path, ep_block, ep_xor_from_file, ep_artifact, ep_http] + PE_EPS}
+ALL_EPS = {f.__name__: f for f in [ep_from_bytes, ep_from_bytes_all, ep_from_file, ep_from_path, ep_from_path_all, ep_block, ep_xor_from_file, ep_artifact, ep_http] + PE_EPS}
 
 
 class Budget(Exception):
@@ -214,9 +226,16 @@ def compare_snapshots(acc, first, last, case):
             return
 
 
-def run_input(acc, eps, data, case, key, nontrivial=True):
+def run_input(acc, eps, data, case, key, nontrivial=True, expect_ok=False):
     outs = tuple(run_ep(acc, fn, data, case) for fn in eps)
     acc.case(key, nontrivial=nontrivial, outcome=outs)
+    if expect_ok:
+        # inputs built around a well-formed configuration: the documented result is that configuration, not the
+        # documented "nothing found" error
+        for fn, o in zip(eps, outs):
+            if o == "ValueError":
+                acc.fail(f"C08/documented-result/not-found-although-present/{fn.__name__[3:]}", dict(case, entry=fn.__name__, expect_ok=True), "a configuration", "ValueError")
+                break
     # the same bytes handed over as bytes and as a path have the same documented result: both a configuration or
     # both the documented ValueError
     if ep_from_bytes in eps and ep_from_path in eps:
@@ -403,6 +422,8 @@ def plan(tier, seed):
         ch.append({"key": f"short/bytes/{hi:02x}", "kind": "short_bytes", "hi": hi, "cost": 1200})
     ch.append({"key": "short/alpha", "kind": "short_alpha", "cost": 2500})
     ch.append({"key": "ua-eof", "kind": "ua_eof", "cost": 100})
+    for part in range(5):
+        ch.append({"key": f"wellformed/{part}", "kind": "wellformed", "part": part, "cost": 900})
     for i in range(len(HTTP_TOKENS)):
         ch.append({"key": f"http/tokens/{i}", "kind": "http_tokens", "first": i, "cost": 3 * len(HTTP_TOKENS) ** (BOUNDS[tier]["http_tokens"] - 1) // 10})
     return ch
@@ -543,6 +564,29 @@ def chunk_http_tokens(chunk, acc):
     acc.sample({"tokens": [t.decode("latin-1") for t in HTTP_TOKENS], "max_tokens": n, "prefixes": [p.decode() for p in HTTP_PREFIXES]})
 
 
+def chunk_wellformed(chunk, acc):
+    """Well-formed payloads the constructors must accept: a XorEncoded stage whose configuration is stored under each
+    single-byte key (00 included), and a raw block whose header starts at every offset around the read-buffer
+    boundaries."""
+    blk = tlv.encode(RC.http_settings()[:6] + [(8, 3, b"h,/u".ljust(32, b"\x00")), (37, 2, b"\x00\x00\x00\x01")]).ljust(600, b"\x00")
+    if chunk["part"] == 0:
+        for key in (0x00, 0x2E, 0x69, 0xAF):
+            for arch in ("x86", "x64"):
+                img = refpe.build_pe(arch=arch, data=b"\x11" * 8 + obf(blk, key) + b"\x22" * 8, append=b"TAIL")
+                enc = xorenc.encode(img, stub=xorenc.CALL_STUB)
+                acc.states += 1
+                eps = [ep_from_bytes_all, ep_from_path_all] if key == 0xAF else [ep_from_bytes, ep_from_path, ep_from_bytes_all]
+                for label, data in (("pe", img), ("xor", enc)):
+                    run_input(acc, eps + [ep_xor_from_file] * (label == "xor") + PE_EPS[:2], data, {"kind": "wellformed", "container": label, "arch": arch, "key": key, "seed": acc.seed}, ("wf", label, arch, key), expect_ok=True)
+    else:
+        lo = {1: 8170, 2: 16360, 3: 24560, 4: 32760}[chunk["part"]]
+        for off in range(lo, lo + 45):
+            acc.states += 1
+            data = b"\x90" * off + obf(blk) + b"\x90" * 11
+            run_input(acc, [ep_from_bytes, ep_from_path], data, {"kind": "wellformed", "offset": off, "seed": acc.seed}, ("wf-off", off), expect_ok=True)
+    acc.sample({"wellformed": "XorEncoded / PE stage with the block under keys 00, 2e, 69, af; raw block at offsets 8170..8214, 16360.., 24560.., 32760..", "oracle": "no ValueError"})
+
+
 def chunk_ua_eof(chunk, acc):
     """The over-long User-Agent whose continuation reaches the end of the data (no NUL anywhere after it)."""
     pre = tlv.rec(1, 1, b"\x00\x00")
@@ -580,6 +624,10 @@ def replay(case):
         pre = bytes(lcg(off, case["seed"] + off)) if case["fill"] == "lcg" else area[max(0, G.CONFIG_SIZE - 6 - off) : G.CONFIG_SIZE - 6][-off:] if off else b""
         data = pre.rjust(off, b"\x55")[:off] + tail
         eps = [ep_from_bytes, ep_from_path, ep_from_file]
+    elif case["kind"] == "wellformed":
+        chunk_wellformed({"part": 0 if "container" in case else {8: 1, 16: 2, 24: 3, 32: 4}[case["offset"] // 1000]}, a)
+        v = next((v for v in a.violations if all(v["case"].get(k) == case.get(k) for k in ("container", "arch", "key", "offset", "entry"))), None)
+        return {"ok": v is None, "expected": v["expected"] if v else None, "observed": v["observed"] if v else None}
     elif case["kind"] == "splice":
         da = build_seed(case["a"], case["seed"])[0]
         db = build_seed(case["b"], case["seed"])[0]
